@@ -124,7 +124,7 @@ func (s *TypeSpec) SDL() string {
 			b.WriteString("  " + v + "\n")
 		}
 		b.WriteString("}\n")
-	case "scalar":
+	case "scalar", "goscalar":
 		b.WriteString("scalar " + s.Name + dirs + "\n")
 	case "directive":
 		b.WriteString("directive @" + s.Name)
@@ -213,8 +213,33 @@ func (s *TypeSpec) Build() ggql.Type {
 			_ = e.AddValue(&ggql.EnumValue{Value: ggql.Symbol(v)})
 		}
 		return e
+	case "goscalar":
+		return &GoScalar{ggql.Scalar{Base: base}}
 	}
 	return nil
+}
+
+// GoScalar is a scalar implemented by the application (AddTypes): values that
+// pass through it are marked, so that a response shows which implementation
+// of a scalar name served it.
+type GoScalar struct {
+	ggql.Scalar
+}
+
+// CoerceIn implements ggql.InCoercer.
+func (t *GoScalar) CoerceIn(v interface{}) (interface{}, error) {
+	if s, ok := v.(string); ok {
+		return "in(" + s + ")", nil
+	}
+	return v, nil
+}
+
+// CoerceOut implements ggql.OutCoercer.
+func (t *GoScalar) CoerceOut(v interface{}) (interface{}, error) {
+	if s, ok := v.(string); ok {
+		return "out(" + s + ")", nil
+	}
+	return v, nil
 }
 
 // ---------------------------------------------------------------------------
@@ -878,6 +903,9 @@ func (g *Gen) pickExisting(kind string) *TInfo {
 	}
 	return l[g.T.Draw(len(l))]
 }
+
+// PickLoaded picks a type of the given kind that is loaded in the root.
+func (g *Gen) PickLoaded(kind string) *TInfo { return g.pickExisting(kind) }
 
 // ResetDoc forgets the pending types of the previous document.
 func (g *Gen) ResetDoc() { g.pending = nil }
